@@ -1,6 +1,7 @@
 -- driver-prefix: sim Sim
 /- line-protocol glue for the simulator model (parsing / printing only) -/
 import EdzedModel.Simulate
+import EdzedModel.CBlocks
 
 namespace Edzed.Sim
 
@@ -76,6 +77,23 @@ def outsStr (d : DState) : String :=
   "C=" ++ ";".intercalate ((List.range d.circ.cblocks.length).map fun b => (d.st.outC b).render)
   ++ " S=" ++ ";".intercalate ((List.range d.ns).map fun i => (d.st.outS i).render)
 
+def fnRender : Fn → String
+  | .not => "not" | .and => "and" | .or => "or" | .xor => "xor"
+  | .override v => "ovr~" ++ v.render
+  | .compare lo hi => "cmp~" ++ ratRender lo ++ "~" ++ ratRender hi
+  | .func f u => "f~" ++ (match f with | .cnt => "cnt" | .sel => "sel" | .glen => "glen") ++ "~" ++ (if u then "1" else "0")
+
+/-- the call a block's function receives (FuncBlock and its subclasses And / Or / Xor, which pass
+    `unpack=False`), and what the scripted function makes of it -/
+def argsStr (d : DState) (j : Nat) : String :=
+  let b := d.circ.blk j
+  match b.fn with
+  | .func f u =>
+    let c := CBlocks.funcCall b u d.st.outC d.st.outS
+    "args " ++ c.render ++ " val=" ++ (CBlocks.Script.apply f u c).render
+  | .and | .or | .xor => "args " ++ (CBlocks.funcCall b false d.st.outC d.st.outS).render
+  | _ => "err NotFuncBlock"
+
 def handle (d : DState) : List String → DState × String
   | "reset" :: nb :: toks =>
     match (nb.splitOn "=") with
@@ -112,6 +130,30 @@ def handle (d : DState) : List String → DState × String
     | some s => let d' := { d with st := s }; (d', "idle " ++ outsStr d')
     | none => (d, "err NotIdle")
   | ["outs"] => (d, outsStr d)
+  | ["args", j] =>
+    match j.toNat? with
+    | some j => (d, argsStr d j)
+    | none => (d, "bad-op")
+  | ["ctor", "cmp", lo, hi] =>
+    match ratParse lo, ratParse hi with
+    | some lo, some hi =>
+      (d, match CBlocks.mkCompare lo hi with
+          | .ok fn => "ok " ++ fnRender fn
+          | .error .valueError => "err ValueError")
+    | _, _ => (d, "bad-op")
+  | ["ctor", "func", f, u] =>
+    let sc := match f with
+      | "cnt" => some Script.cnt | "sel" => some Script.sel | "glen" => some Script.glen | _ => none
+    let un := match u with
+      | "-" => some none | "1" => some (some true) | "0" => some (some false) | _ => none
+    match sc, un with
+    | some sc, some un => (d, "ok " ++ fnRender (CBlocks.mkFunc sc un))
+    | _, _ => (d, "bad-op")
+  | ["ctor", "ovr", v] =>
+    if v == "-" then (d, "ok " ++ fnRender (CBlocks.mkOverride none)) else
+    match Val.parse v with
+    | some v => (d, "ok " ++ fnRender (CBlocks.mkOverride (some v)))
+    | none => (d, "bad-op")
   | ["ext", i, "put", v] =>
     match i.toNat?, Val.parse v with
     | some i, some v => let s := extOp d.circ d.st i .put v; ({ d with st := s }, "ok " ++ (s.outS i).render)
